@@ -8,6 +8,7 @@ import (
 	"github.com/brocaar/lorawan"
 	"github.com/brocaar/lorawan/airtime"
 	"github.com/brocaar/lorawan/gps"
+	"github.com/brocaar/lorawan/sensitivity"
 )
 
 func init() { families["misc"] = drvMisc }
@@ -223,6 +224,21 @@ func drvMisc(c *ctx) error {
 		}
 		for i := 0; i < 256; i++ {
 			c.emit(eirpDecEvent(i))
+		}
+	case "sens": // extended coverage: sensitivity / link budget (package sensitivity)
+		milli := func(x float32) int { return int(math.Round(float64(x) * 1000)) }
+		for i := 0; i < c.n; i++ {
+			bw := []int{1, 10, 1000, 7800, 10400, 15600, 20800, 31250, 41700, 62500, 125000, 250000, 500000, 203000, 406000, 812000, 1625000}[c.rnd.Intn(17)]
+			if c.rnd.Intn(4) == 0 {
+				bw = 1 + c.rnd.Intn(2000000)
+			}
+			nf := float32(c.rnd.Intn(1500)) / 100
+			snr := float32(c.rnd.Intn(4000)-2500) / 100
+			tx := float32(c.rnd.Intn(3000)) / 100
+			c.emit(M{"ev": "sens", "bw": bw, "nfc": milli(nf) / 10, "snrc": milli(snr) / 10, "txc": milli(tx) / 10,
+				"s": milli(sensitivity.CalculateSensitivity(bw, nf, snr)), "s0": milli(sensitivity.CalculateSensitivity(bw, 0, 0)),
+				"s10": milli(sensitivity.CalculateSensitivity(bw*10, 0, 0)), "s2": milli(sensitivity.CalculateSensitivity(bw*2, 0, 0)),
+				"lb": milli(sensitivity.CalculateLinkBudget(bw, nf, snr, tx))})
 		}
 	default:
 		return fmt.Errorf("misc: unknown mode %q", c.mode)
